@@ -129,6 +129,17 @@ def impl(case):
                     out["batch_ok"] = False
             if b1.shape != (len(good), case["p"] if case["cost"] != "gcov" else 1):
                 out["shape_ok"] = False
+            # pure batches: all intervals with the same start, all with the same end, all of the same length
+            for key in (lambda iv: ("s", iv[0]), lambda iv: ("e", iv[1]), lambda iv: ("len", iv[1] - iv[0])):
+                groups = {}
+                for iv in good:
+                    groups.setdefault(key(iv), []).append(iv)
+                for g in groups.values():
+                    if len(g) >= 2:
+                        bg = sc.evaluate(np.array(g))
+                        for k, iv in enumerate(g):
+                            if [float(t) for t in bg[k]] != single[iv]:
+                                out["batch_ok"] = False
         out["vals"] = {f"{s},{e}": v for (s, e), v in single.items()}
         out["data_untouched"] = bool(np.array_equal(X, X0))
         return out
